@@ -22,3 +22,10 @@ Fixpoint spec_run (z : Z) (ops : list op) : list obs :=
       let '(z1, ob) := spec_step z o in
       match ob with Some x => x :: spec_run z1 rest | None => spec_run z1 rest end
   end.
+
+(* the logical errno after the operations *)
+Fixpoint spec_final (z : Z) (ops : list op) : Z :=
+  match ops with
+  | [] => z
+  | o :: rest => spec_final (fst (spec_step z o)) rest
+  end.
